@@ -285,6 +285,21 @@ def formatResponse (N : NumOps) (f : Format) (resp : Json) : Outcome (List Char 
         | some resp' => .ok (row, resp')
         | none => .panic
 
+/-! ### a mapping written in the application's TOML -/
+
+/-- `str::to_lowercase` (on ASCII letters; the `config` crate applies it to every table key it merges) -/
+def lowerName (k : String) : String := String.ofList (k.toList.map Char.toLower)
+
+def insertColumn (acc : List (String × CsvMapping)) (k : String) (m : CsvMapping) : List (String × CsvMapping) :=
+  if acc.any (fun p => p.1 == k) then acc.map (fun p => if p.1 == k then (k, m) else p) else acc ++ [(k, m)]
+
+/-- what arrives in `ResponseOutputFormat::Csv { mapping }` when the mapping is configured in the application's
+TOML file (not in the per-run JSON configuration, which keeps names as they are): the `config` crate lower-cases
+the column names, and a name that comes again takes the place — and keeps the position — of its first
+occurrence.  A configured column can thus disappear without any error. -/
+def tomlMapping (configured : List (String × CsvMapping)) : List (String × CsvMapping) :=
+  configured.foldl (fun acc c => insertColumn acc (lowerName c.1) c.2) []
+
 /-! ### `WriteMode::open_file`, `ResponseOutputPolicy::build` -/
 
 inductive WriteMode where
@@ -294,7 +309,11 @@ inductive WriteMode where
 /-- `write_header`: `std::fs::write(path, initial_file_contents.unwrap_or(""))` -/
 def headerText (f : Format) : List Char := (initialContents f).getD []
 
-/-- contents of the file right after `open_file` (`existing = none`: no such file); `none`: refused -/
+/-- contents of the file right after `open_file` (`existing = none`: no such file); `none`: refused.
+`Append` on a missing file is `OpenOptions::append(true).create_new(true)` followed by the header on the same
+handle: whoever creates the file writes the header, nobody truncates (the sink that loses the race to create
+opens what is there).  One step here; the instant between creating the file and writing the header — in which
+another sink's record could land before the header — is not modelled. -/
 def openFile (mode : WriteMode) (f : Format) (existing : Option (List Char)) : Option (List Char) :=
   match mode, existing with
   | .append, some c => some c
